@@ -1389,6 +1389,53 @@ fn c07_case(rep: &mut Report, w: &Watch, a: &Runtype, b: &Runtype, defs: &[Named
             Value::Typed(_) => "typed-array",
         }
     };
+    // (operands that mention `any`: the computed type carries tag bits - function, void - that no
+    // printable union member stands for; the value clause below still judges those cases)
+    let any_involved = has_kind(a, &|k| matches!(k, RuntypeKind::Any)) || has_kind(b, &|k| matches!(k, RuntypeKind::Any)) || defs.iter().any(|d| has_kind(&d.schema, &|k| matches!(k, RuntypeKind::Any)));
+    if any_involved {
+        rep.count("round_trip_skipped_any_operand", 1);
+    }
+    if !negation_in_head && !any_involved {
+        // the engine's own round trip: the materialised type, converted again, is the computed type
+        // (this clause needs no value model, so it also covers Map / Set / typed-array / Date atoms)
+        let mut rt_defs: Vec<NamedSchema> = defs.to_vec();
+        rt_defs.extend(mat.tail.iter().map(|t| NamedSchema { name: t.name.clone(), schema: t.schema.clone() }));
+        if !rt_defs.iter().any(|d| d.name == name) {
+            rt_defs.push(NamedSchema { name: name.clone(), schema: mat.head.clone() });
+        }
+        let refs3: Vec<&NamedSchema> = rt_defs.iter().collect();
+        let back = guard(|| {
+            let again = mat.head.to_sem_type(&refs3, &mut ctx)?;
+            // the "property is missing" marker is not a value: it is materialised as `undefined`
+            // (and the `?` of the member); compare modulo the marker, allowing that `undefined`
+            let marker = Rc::new(SemTypeContext::optional_prop());
+            let has_marker = !t.intersect(&marker)?.is_empty(&mut ctx)?;
+            let t2 = t.diff(&marker)?;
+            let again2 = again.diff(&marker)?;
+            let allowed = if has_marker { t2.union(&Rc::new(SemTypeContext::undefined()))? } else { t2.clone() };
+            Ok((again2.is_subtype(&allowed, &mut ctx)?, t2.is_subtype(&again2, &mut ctx)?))
+        });
+        match back {
+            Eng::Ok((le, ge)) => {
+                rep.judged(1);
+                rep.count("round_trips_checked", 1);
+                if !(le && ge) {
+                    rep.violation(
+                        &format!("materialised-type-converts-back-to-another-type|{}|{}", op, if !ge { "loses-values" } else { "gains-values" }),
+                        "meaning-preserved",
+                        format!("{} of\n{}\ncomputed semantic type: {:?}\n{}\nmaterialised <: computed = {}, computed <: materialised = {}", op, case_show(&c), t, show_mat(&mat), le, ge),
+                        replay.clone(),
+                    );
+                    return;
+                }
+            }
+            Eng::Refused(m) => rep.inconclusive(&format!("round-trip-refused:{}", m.split(':').next().unwrap_or(""))),
+            Eng::Panic(m) => {
+                rep.violation(&format!("panic|round-trip|{}", m), "panic", show_mat(&mat), replay.clone());
+                return;
+            }
+        }
+    }
     if negation_in_head {
         // the frontend refuses such a result with a diagnostic (ensure_no_negation) unless Exclude's
         // clean-up removes the negations first (checked below)
@@ -1505,12 +1552,67 @@ fn c07_case(rep: &mut Report, w: &Watch, a: &Runtype, b: &Runtype, defs: &[Named
 }
 
 fn c07(args: &Args, rep: &mut Report, w: &Watch) {
+    // containers next to named types: Map / Set / list / object members, named and inline, in every
+    // order of conversion (the atoms of the four kinds are numbered separately; a computed type has
+    // to come back with each atom under its own kind). Judged by the engine's round trip and the
+    // name clauses; the value clause says "unsupported" for Map / Set and is skipped there.
+    {
+        let map = |k: Runtype, v: Runtype| Runtype::new(RuntypeKind::Map(Box::new(k), Box::new(v)));
+        let set = |v: Runtype| Runtype::new(RuntypeKind::Set(Box::new(v)));
+        let members: Vec<(&str, Runtype)> = vec![
+            ("obj", tgen::obj(vec![("v", Runtype::string(), false)], None)),
+            ("obj2", tgen::obj(vec![("w", Runtype::number(), false), ("o", Runtype::null(), true)], None)),
+            ("map", map(Runtype::string(), Runtype::number())),
+            ("map2", map(Runtype::string(), tgen::obj(vec![("m", Runtype::boolean(), false)], None))),
+            ("set", set(Runtype::string())),
+            ("set2", set(tgen::obj(vec![("s", tgen::lit_n(1), false)], None))),
+            ("arr", Runtype::array(Box::new(Runtype::number()))),
+            ("tuple", Runtype::tuple(vec![Runtype::string(), Runtype::number()], None)),
+        ];
+        let mut k = 0u64;
+        for i in 0..members.len() {
+            for j in 0..members.len() {
+                if i == j {
+                    continue;
+                }
+                for named in 0..4 {
+                    for opi in 0..3 {
+                        k += 1;
+                        if k % args.of != args.shard {
+                            continue;
+                        }
+                        // named: bit 0 = the first member is a declared type, bit 1 = the second
+                        let mut defs: Vec<NamedSchema> = vec![];
+                        let mut mk = |idx: usize, is_named: bool, defs: &mut Vec<NamedSchema>| -> Runtype {
+                            if is_named {
+                                let name = tgen::uuid(&format!("T{}", members[idx].0));
+                                defs.push(NamedSchema { name: name.clone(), schema: members[idx].1.clone() });
+                                Runtype::ref_(name)
+                            } else {
+                                members[idx].1.clone()
+                            }
+                        };
+                        let x = mk(i, named & 1 != 0, &mut defs);
+                        let y = mk(j, named & 2 != 0, &mut defs);
+                        let (a, b, op) = match opi {
+                            0 => (tgen::raw_any_of(vec![x, y, Runtype::null()]), Runtype::null(), "diff"),
+                            1 => (tgen::raw_any_of(vec![x.clone(), y.clone(), Runtype::string()]), tgen::raw_any_of(vec![x, y, Runtype::number()]), "intersect"),
+                            _ => (tgen::obj(vec![("p", x, false), ("q", y, true)], None), tgen::raw_any_of(vec![tgen::lit_s("p"), tgen::lit_s("q")]), "indexed"),
+                        };
+                        rep.count("container_grid_cases", 1);
+                        c07_case(rep, w, &a, &b, &defs, op, false);
+                    }
+                }
+            }
+        }
+    }
     let n = rep.share(400_000, 12_000_000);
     for i in 0..n {
         let mut rng = Rng::new(args.seed, &format!("c07|{}|{}", args.shard, i));
         let ndefs = if rng.chance(2, 5) { 1 + rng.below(3) } else { 0 };
         let rng_any = rng.chance(1, 6);
-        let mut g = RandGen { rng: &mut rng, names: vec![], allow_any: rng_any, allow_tpl: true, allow_exotic: false };
+        let rng_exotic = rng.chance(1, 3);
+        let mut g = RandGen { rng: &mut rng, names: vec![], allow_any: rng_any, allow_tpl: true, allow_exotic: rng_exotic };
         let defs = if ndefs > 0 { g.defs(ndefs) } else { vec![] };
         let ba = 2 + g.rng.below(6);
         let a = if !defs.is_empty() && g.rng.chance(1, 3) { Runtype::ref_(defs[0].name.clone()) } else { g.ty(ba, true) };
